@@ -37,15 +37,22 @@ cd /verif
 VERIF_REPO=$WT ./check $PID quick > /tmp/seed.$$.check 2>&1; rc=$?
 grep -m3 -A3 "^FAILING-CASE\|^REGRESS-FAILS" /tmp/seed.$$.check | cut -c1-500
 tail -2 /tmp/seed.$$.check | cut -c1-300
-echo "quick check exit=$rc confirmed=$confirmed"
+gen_rc=$rc
+if [ $rc -eq 1 ] && grep -q "cases=0 " /tmp/seed.$$.check; then
+  # the regress tier (saved cases) caught it before the generators ran: measure the generated tier alone as well
+  VERIF_REPO=$WT VERIF_SKIP_REGRESS=1 ./check $PID quick > /tmp/seed.$$.check2 2>&1; gen_rc=$?
+  grep -a -m1 -A2 "^FAILING-CASE" /tmp/seed.$$.check2 | cut -c1-400
+  tail -1 /tmp/seed.$$.check2 | cut -c1-200
+fi
+echo "quick check exit=$rc generated-tier-alone exit=$gen_rc confirmed=$confirmed"
 if $confirmed; then
   mkdir -p $OUT
   cp $DIFF $OUT/patch.diff; cp $DEMO $OUT/demo_test.go; [ -f $SRC/note$N.md ] && cp $SRC/note$N.md $OUT/note.md
   viol=$(grep -m1 "^VIOLATION" /tmp/seed.$$.check)
   prev=$(cat $OUT/meta.json 2>/dev/null)
-  python3 - "$PID" "$N" "$changed" "$rc" "$viol" "$place" "$prev" > $OUT/meta.json.new <<'PY'
+  python3 - "$PID" "$N" "$changed" "$rc" "$viol" "$place" "$prev" "$gen_rc" > $OUT/meta.json.new <<'PY'
 import json, sys, datetime
-pid, n, changed, rc, viol, place, prev = sys.argv[1:8]
+pid, n, changed, rc, viol, place, prev, gen_rc = sys.argv[1:9]
 keep = {}
 try:
     old = json.loads(prev)
@@ -64,6 +71,7 @@ print(json.dumps({**keep, **{
                 "VERIF_REPO=<worktree> ./check %s quick -> exit %s" % (pid, rc)],
  "quick_check_exit": int(rc), "quick_check_first_violation": viol,
  "detected_by_quick": int(rc) == 1,
+ "detected_by_generated_tier_alone": int(gen_rc) == 1,
 }}, indent=1))
 PY
   mv $OUT/meta.json.new $OUT/meta.json
